@@ -162,17 +162,47 @@ func (g *G) variations(thorough bool) {
 				q.cfl, name = sp(hex.EncodeToString(r.Bytes(17))), "17-bytes"
 			case 2:
 				q.cfl, name = sp(hex.EncodeToString(r.Bytes(1))), "1-byte"
-			case 3: // type 1 with a seventh mask: decodes to 7 masks, which the encoder refuses
+			case 3: // type 1 with octets 12..13 set (read as a seventh mask before /repo e2c2b92; RFU, ignored, now)
 				b := r.Bytes(16)
 				b[12] |= 1
 				b[15] = 1
-				q.cfl, name = sp(hex.EncodeToString(b)), "type1-seventh-mask"
+				q.cfl, name = sp(hex.EncodeToString(b)), "type1-rfu-12-13-set"
 			default: // type 1 with RFU byte set / trailing zero masks: accepted, RFU not echoed
 				b := r.Bytes(16)
 				b[12], b[13], b[14], b[15] = 0, 0, 0x5a, 1
 				q.cfl, name = sp(hex.EncodeToString(b)), "type1-rfu-set"
 			}
 			g.run(t, q, "INone", "cflist-odd", "cflist:"+name+":"+a.describe(), nil)
+		}
+		// ---- channel-mask CFLists whose RFU octets 12..14 are not zero, for every flow: accepted, the join-accept
+		//      carries the six masks and zero RFU octets (the model says so; no echo expectation) ----
+		for fi, kind := range []int{kJoin, kJoin, kRejoin0 + r.Intn(3)} {
+			for _, pat := range []struct {
+				name       string
+				b12, b13, b14 byte
+			}{{"rfu12", 1 + r.Byte()%255, 0, 0}, {"rfu13", 0, 1 + r.Byte()%255, 0}, {"rfu14", 0, 0, 1 + r.Byte()%255}, {"rfu-all-ff", 0xff, 0xff, 0xff}} {
+				a := g.randomAct(kind)
+				if kind == kJoin {
+					a.dls = a.dls&0x7f | byte(fi)<<7
+				}
+				t, q := a.table(), g.request(&a)
+				b := r.Bytes(16)
+				if pat.name == "rfu-all-ff" {
+					for i := 0; i < 12; i++ {
+						b[i] |= 1 // all six masks non-zero
+					}
+				} else if r.Bool() {
+					for i := 2 * r.Intn(6); i < 12; i++ {
+						b[i] = 0 // trailing all-zero masks
+					}
+				}
+				b[12], b[13], b[14], b[15] = pat.b12, pat.b13, pat.b14, 1
+				q.cfl = sp(hex.EncodeToString(b))
+				ans := g.run(t, q, "INone", "cflist-rfu", "cflist:type1:"+pat.name+":"+a.describe(), nil)
+				if ans.rc != "Success" {
+					g.s.Fail(casesFail("cflist-rfu-refused:"+pat.name+":"+a.describe(), fmt.Sprintf("a channel-mask CFList with RFU octets set is answered %d %q (the RFU octets must be ignored)", ans.status, ans.rc), q.body()))
+				}
+			}
 		}
 		// ---- SenderID / ReceiverID that are not a NetID / JoinEUI, or not those of the frame ----
 		for i := 0; i < 8; i++ {
